@@ -32,7 +32,9 @@ RULE = ("grammar-directed over the public operators (IntVar/Expr +,-,*, reversed
         "to 0..10, where a DFS run would not finish; judged by the verified evaluator on the returned and a planted "
         "assignment, the back-end actually used is compared with the Cp.Choose mirror) and a scaled-coefficient family "
         "(k*x+-c ~ k*y+-d, k*(x-y) ~ c, k*x-k*y ~ c, x+x ~ y+y+c with k in {2,3,-2}, constants divisible or not, ==/!=, "
-        "alone or with x==y / x!=y / all_different); collection arguments of all_different/sum_*/circuit/no_overlap/"
+        "alone or with x==y / x!=y / all_different); a numeric-edge family (500 x budget models: domains of 2-5 values "
+        "located at +-2**53+-k, +-2**62, +-10**18, 2**63, 2**64+1 mixed with ordinary ones, constants/targets/durations "
+        "and two-term coefficients of such magnitudes; exact integers end to end); collection arguments of all_different/sum_*/circuit/no_overlap/"
         "cumulative are presented as list, tuple, generator, map, reversed, iter, dict values view or a scratch list "
         "that is cleared and refilled after add() (30% of the plain models, 70% of the history constraints); 1200 "
         "(quick) HISTORIES on one Model object (2-3 rounds of: declare variables, add constraints, solve with a varying "
@@ -83,6 +85,17 @@ def gen_scaled_cases(rng, n):
         for solver in ("auto", "dfs", "sat"):
             cases.append({"vars": vars_, "cons": cons, "hints": None, "limit": limit, "solver": solver,
                           "family": "scaled"})
+    return cases
+
+
+def gen_numeric_cases(rng, n):
+    cases = []
+    for _ in range(n):
+        vars_, cons, hints = K.gen_numeric_edge(rng)
+        limit = rng.choice([1, 3, 100, 100])
+        for solver in ("auto", "dfs", "sat"):
+            cases.append({"vars": vars_, "cons": cons, "hints": hints, "limit": limit, "solver": solver,
+                          "family": "numeric_edge"})
     return cases
 
 
@@ -265,6 +278,8 @@ def run_cases(ctx, cases, attribute=True, outs=None, hist=None):
         st = out[1]["status"] if out[0] == "ok" else err_kind(out)
         ctx.count(f"status:{st}")
         ctx.count(f"solver:{case['solver']}->{path}")
+        if case.get("family") == "numeric_edge":
+            ctx.count(f"numeric_edge_family:{case['solver']}->{path}")
         if case.get("family") == "scaled":
             ctx.count(f"scaled_family:{case['solver']}->{path}")
         if case.get("family") == "routing":
@@ -422,6 +437,7 @@ def run(ctx, budget):
         run_cases(ctx, gen_cases(ctx.rng, 1000, big=(ctx.tier == "thorough")))
     run_cases(ctx, gen_routing_cases(ctx.rng, 60 * budget))
     run_cases(ctx, gen_scaled_cases(ctx.rng, 400 * budget))
+    run_cases(ctx, gen_numeric_cases(ctx.rng, 500 * budget))
     # fixed share, both tiers: histories on one Model (solve, extend, solve again) with presentation styles
     for _ in range(budget):
         run_histories(ctx, [K.gen_history(ctx.rng) for _ in range(1200 if ctx.tier == "quick" else 600)])
